@@ -23,6 +23,7 @@ import numpy as np
 
 from common import VERIF, qlit, qlist, zlit, dyadic, coqc_many, parse_evals, parse_zlist
 import c11_search as S
+import c11_forms as F
 
 THEOREMS = ["C11_sart_returns_iterate_under_stopping_rule", "C11_csart_returns_iterate_under_stopping_rule",
             "C11_sart_step_is_documented_rule", "C11_csart_step_is_documented_rule",
@@ -156,10 +157,7 @@ def gen_guess(rng, n, mode, tags):
         return None
     if r < 0.35:
         tags.add("guess_scalar")
-        v = float(gen_value(rng, mode, 0, 3))
-        if v == int(v) and rng.random() < 0.5:
-            tags.add("guess_scalar_python_int")
-        return v
+        return float(gen_value(rng, mode, 0, 3))
     v = np.array([gen_value(rng, mode, -2 if rng.random() < 0.5 else 0, 6) for _ in range(n)])
     if np.any(v < 0):
         tags.add("guess_negative")
@@ -189,14 +187,14 @@ def gen_sart_case(rng, mode, big, constrained):
         b = np.zeros(m)
         tags.add("zero_measurement")
     g = gen_guess(rng, n, mode, tags)
-    relax = dyadic(rng, 0.1, 1.9, 4)
+    relax = 1.0 if rng.random() < 0.25 else dyadic(rng, 0.1, 1.9, 4)
     tol = rng.choice([1.0E-4, 1.0E-4, 2.0 ** -6, 2.0 ** -10, 0.0, 0.5, 8.0])
     maxit = rng.choice([0, 1, 2, 3, -1] if large else ([0, 1, 2, 3, 4, 6] + ([9, 14] if big else []) + [-1]))
     case = {"kind": "csart" if constrained else "sart", "mode": mode, "m": m, "n": n, "W": W, "b": b, "guess": g,
             "relax": relax, "tol": tol, "maxit": maxit, "tags": tags, "big": big, "large": large}
     if constrained:
         case["L"] = gen_laplacian(rng, n, mode, tags)
-        case["beta"] = rng.choice([0.0, 0.01, dyadic(rng, 0, 0.25, 6)])
+        case["beta"] = rng.choice([0.0, 0.01, dyadic(rng, 0, 0.25, 6), dyadic(rng, 0, 0.25, 6), 1.0])
         if case["beta"] == 0.0:
             tags.add("beta_zero")
     return case
@@ -211,7 +209,7 @@ def gen_lsq_case(rng, mode, kind):
     if kind == "nnls" and rng.random() < 0.06:
         b = -np.abs(b) if rng.random() < 0.5 else np.zeros(m)
         tags.add("vmax_zero")
-    alpha = rng.choice([0.01, 0.0, 1.0, dyadic(rng, 0, 2, 6), 2.0 ** -10])
+    alpha = rng.choice([0.01, 0.0, 1.0, 2.0, 3.0, dyadic(rng, 0, 2, 6), dyadic(rng, 0, 2, 6), 2.0 ** -10])
     if rng.random() < 0.3:
         L = None
         tags.add("L_none")
@@ -225,27 +223,30 @@ def gen_lsq_case(rng, mode, kind):
 # ---------------------------------------------------------------------------------------------
 # running the implementation
 # ---------------------------------------------------------------------------------------------
+_VARIANT = [0]
+
+
 def run_sart_impl(inv, case, maxit=None):
-    """returns ("ok", x, convs) or ("zerodiv", None, None).  The initial guess array is copied because the
-    implementation updates it in place."""
-    g = case["guess"]
-    g = g.copy() if isinstance(g, np.ndarray) else g
-    if "guess_scalar_python_int" in case["tags"]:
-        g = int(g)
+    """returns ("ok", x, convs), ("zerodiv", None, None) or ("exception:<Type>: <text>", None, None).
+    Fresh objects in the case's forms are built for every call (the implementation updates the initial guess
+    in place)."""
+    _VARIANT[0] += 1
+    a = F.presented_args(case, _VARIANT[0])
     mi = case["maxit"] if maxit is None else maxit
+    mi = F.present_scalar(mi, case.get("forms", {}).get("maxit", "SPyInt"))
     with warnings.catch_warnings():
         warnings.simplefilter("ignore")
         try:
             if case["kind"] == "sart":
-                x, cs = inv.invert_sart(case["W"].copy(), case["b"].copy(), initial_guess=g, max_iterations=mi,
-                                        relaxation=case["relax"], conv_tol=case["tol"])
+                x, cs = inv.invert_sart(a["W"], a["b"], initial_guess=a["guess"], max_iterations=mi,
+                                        relaxation=a["relax"], conv_tol=a["tol"])
             else:
-                x, cs = inv.invert_constrained_sart(case["W"].copy(), case["L"].copy(), case["b"].copy(), initial_guess=g,
-                                                    max_iterations=mi, relaxation=case["relax"],
-                                                    beta_laplace=case["beta"], conv_tol=case["tol"])
+                x, cs = inv.invert_constrained_sart(a["W"], a["L"], a["b"], initial_guess=a["guess"],
+                                                    max_iterations=mi, relaxation=a["relax"],
+                                                    beta_laplace=a["beta"], conv_tol=a["tol"])
         except ZeroDivisionError:
             return "zerodiv", None, None
-        except Exception as ex:            # not swallowed: reported as a finding with its input by the caller
+        except Exception as ex:            # not swallowed: compared with the policy table, reported with its input
             return "exception:%s: %s" % (type(ex).__name__, ex), None, None
     return "ok", np.array(x, dtype=float), [float(c) for c in cs]
 
@@ -308,7 +309,7 @@ def run(ctx):
         "(eps = 2^-30 x rounding-error scale of the gradient / objective); no theorem about the solvers' algorithms",
     ]
     ctx.rebuild()
-    ctx.proofs("Properties.C11", THEOREMS, extra_modules=("Model.C11_Check", "Proofs.C11_Check"))
+    ctx.proofs("Properties.C11", THEOREMS, extra_modules=("Model.C11_Check", "Proofs.C11_Check", "Model.C11_Forms"))
     ctx.log("proofs checked")
 
     import cherab
@@ -323,7 +324,7 @@ def run(ctx):
     entries = []      # (coq expression : Z code, meta)
     defs = []
     viol = []         # direct violations seen while running the implementation (non-finite output, crash)
-    dist = {"kind": {}, "tags": {}, "mode": {}, "sweeps": {}, "tie": {}}
+    dist = {"kind": {}, "tags": {}, "mode": {}, "sweeps": {}, "tie": {}, "outcome": {}}
 
     def count(d, k):
         dist[d][str(k)] = dist[d].get(str(k), 0) + 1
@@ -351,8 +352,8 @@ def run(ctx):
                 corpus_cases.append(c)
 
     # ---- SART cases ------------------------------------------------------------------------------
-    n_run = 32 if quick else 200
-    n_trace = 80 if quick else 1000
+    n_run = 40 if quick else 200
+    n_trace = 100 if quick else 1000
     sart_cases = [c for c in corpus_cases if c["kind"] in ("sart", "csart")]
     for i in range(n_run):
         sart_cases.append(gen_sart_case(rng, rng.choice(["int", "int", "dyadic"]), False, i % 2 == 1))
@@ -377,6 +378,9 @@ def run(ctx):
 
     n_nontrivial = 0
     distinct = set()
+    for case in sart_cases:
+        if "corpus" not in case["tags"]:
+            F.assign_forms(rng, case, preserve="exact_solution_start" in case["tags"])
     for ci, case in enumerate(sart_cases):
         case.setdefault("tie", "trace")
         n, m = case["n"], case["m"]
@@ -388,8 +392,13 @@ def run(ctx):
         count("tie", case["tie"])
         for t in case["tags"]:
             count("tags", t)
-        if st.startswith("exception"):
-            viol.append(("c11:%s:exception" % kind, "%s raised %s on a valid input" % (kind, st[10:]), meta_of(case)))
+        observed = "Accept" if not st.startswith("exception") else F.OUTCOME.get(st[10:].split(":")[0], "ErrOtherE")
+        entries.append(("check_sart_forms %s %s %s %s" % (F.coq_array_form(case, "W"), F.coq_array_form(case, "b"),
+                                                          F.coq_guess_form(case), observed),
+                        dict(case, tie="forms", exception=st[10:] if observed != "Accept" else None)))
+        count("tie", "forms")
+        count("outcome", "%s:%s" % (kind, observed))
+        if observed != "Accept":
             continue
         if st == "ok" and not finite(cs, *xs):
             viol.append(("c11:%s:nonfinite" % kind, "%s returned a non-finite solution or convergence value for finite inputs "
@@ -432,10 +441,36 @@ def run(ctx):
         entries.append((e, case))
 
     # ---- least-squares cases -------------------------------------------------------------------
-    n_lsq = 48 if quick else 480
+    n_lsq = 64 if quick else 480
     lsq_cases = [c for c in corpus_cases if c["kind"] in ("nnls", "lstsq", "svd")]
     for i in range(n_lsq):
         lsq_cases.append(gen_lsq_case(rng, rng.choice(["int", "dyadic", "float", "float"]), ["nnls", "lstsq", "nnls", "svd"][i % 4]))
+    for case in lsq_cases:
+        if "corpus" not in case["tags"]:
+            F.assign_forms(rng, case)
+
+    def call_lsq(case, recorder=None):
+        """one call of the real entry point with fresh objects in the case's forms;
+        returns ("ok", result) or ("exception", exception)"""
+        _VARIANT[0] += 1
+        a = F.presented_args(case, _VARIANT[0])
+        kind = case["kind"]
+        target = {"nnls": (scipy.optimize, "nnls"), "lstsq": (np.linalg, "lstsq")}.get(kind)
+        orig = getattr(*target) if (recorder and target) else None
+        if orig is not None:
+            setattr(target[0], target[1], recorder)
+        try:
+            if kind == "nnls":
+                return "ok", nnls_mod.invert_regularised_nnls(a["W"], a["b"], alpha=a["alpha"], tikhonov_matrix=a["L"])
+            if kind == "lstsq":
+                return "ok", lstsq_mod.invert_regularised_lstsq(a["W"], a["b"], alpha=a["alpha"], tikhonov_matrix=a["L"])
+            return "ok", svd_mod.invert_svd(a["W"], a["b"])
+        except Exception as ex:     # not swallowed: compared with the policy table / error model, reported with its input
+            return "exception", ex
+        finally:
+            if orig is not None:
+                setattr(target[0], target[1], orig)
+
     for li, case in enumerate(lsq_cases):
         ci = len(sart_cases) + li
         kind, n, m = case["kind"], case["n"], case["m"]
@@ -450,98 +485,101 @@ def run(ctx):
             defs.append("Definition L%d : mat := %s." % (ci, qmat(case["L"])))
             Lopt = "(Some L%d)" % ci
         W, b = case["W"], case["b"]
+        vmax_zero = not (np.concatenate([b, np.zeros(n)]).max() != 0)
+        fm = case.get("forms", {})
+        # single precision inside the implementation: scipy's pinv works in float32 for float32 / uint8 / bool matrices;
+        # NumPy forms alpha * L in float32 for a float32 Tikhonov matrix.  Tolerances are then those of single precision.
+        case["single"] = (fm.get("W") in ("F32", "U8", "FBool")) if kind == "svd" else (fm.get("L") == "F32")
+        single = "true" if case["single"] else "false"
+        if case["single"]:
+            count("tags", "single_precision_inside_%s" % kind)
         with warnings.catch_warnings():
             warnings.simplefilter("ignore")
-            if kind == "nnls":
-                # (a) the wrapper itself, third-party solver replaced by a recorder
-                rec = Recorder(rng, n, False)
-                orig = scipy.optimize.nnls
-                scipy.optimize.nnls = rec
-                try:
-                    xr, rr = nnls_mod.invert_regularised_nnls(W.copy(), b.copy(), alpha=case["alpha"],
-                                                              tikhonov_matrix=None if case["L"] is None else case["L"].copy())
-                finally:
-                    scipy.optimize.nnls = orig
-                vmax_zero = not (np.concatenate([b, np.zeros(n)]).max() != 0)
-                if finite(rec.args[0], rec.args[1], rr) or not vmax_zero:
-                    if not finite(rec.args[0], rec.args[1], rr):
-                        viol.append(("c11:nnls:nonfinite-system", "invert_regularised_nnls handed a non-finite system to the solver "
-                                     "although max(b) > 0", meta_of(case)))
-                        continue
-                    e = "check_nnls_wrapper %d %s %s %s %s %s %s %s %s %s %s" % (
-                        n, Wn, bn, qlit(case["alpha"]), Lopt, qmat(rec.args[0]), qlist(rec.args[1].tolist()),
-                        qlist(rec.x.tolist()), qlit(rec.r), qlist(np.asarray(xr, dtype=float).tolist()), qlit(float(rr)))
-                    entries.append((e, dict(case, tie="wrapper")))
-                    count("tie", "wrapper")
-                # (b) the real thing
-                try:
-                    x, rn = nnls_mod.invert_regularised_nnls(W.copy(), b.copy(), alpha=case["alpha"],
-                                                             tikhonov_matrix=None if case["L"] is None else case["L"].copy())
-                    status = "ok"
-                except ValueError as ex:
-                    status = "valueerror"
-                    case["impl"] = {"status": status, "message": str(ex)}
-                except Exception as ex:
-                    viol.append(("c11:nnls:exception", "invert_regularised_nnls raised %s: %s on a valid input"
-                                 % (type(ex).__name__, ex), meta_of(case)))
-                    continue
-                if status == "ok":
-                    if not finite(x, rn):
-                        viol.append(("c11:nnls:nonfinite", "invert_regularised_nnls returned a non-finite solution or norm",
-                                     meta_of(case, {"impl_x": np.asarray(x).tolist(), "impl_rnorm": float(rn)})))
-                        continue
-                    case["impl"] = {"status": "ok", "x": np.asarray(x, dtype=float).tolist(), "rnorm": float(rn)}
-                    e = "check_nnls_out %d %s %s %s %s %s %s" % (n, Wn, bn, qlit(case["alpha"]), Lopt,
-                                                                 qlist(np.asarray(x, dtype=float).tolist()), qlit(float(rn)))
-                else:
-                    e = "check_nnls_error %d %s" % (n, bn)
-                entries.append((e, dict(case, tie="certificate")))
-                count("tie", "certificate")
-            elif kind == "lstsq":
-                rec = Recorder(rng, n, True)
-                orig = np.linalg.lstsq
-                np.linalg.lstsq = rec
-                try:
-                    xr, rr = lstsq_mod.invert_regularised_lstsq(W.copy(), b.copy(), alpha=case["alpha"],
-                                                                tikhonov_matrix=None if case["L"] is None else case["L"].copy())
-                finally:
-                    np.linalg.lstsq = orig
-                e = "check_lstsq_wrapper %d %s %s %s %s %s %s %s %s" % (
-                    n, Wn, bn, qlit(case["alpha"]), Lopt, qmat(rec.args[0]), qlist(rec.args[1].tolist()),
-                    "(Qeq_bool_list %s %s)" % (qlist(rec.x.tolist()), qlist(np.asarray(xr, dtype=float).tolist())),
-                    "(Qeq_bool_list %s %s)" % (qlist([rec.r]), qlist(np.asarray(rr, dtype=float).tolist())))
-                entries.append((e, dict(case, tie="wrapper")))
-                count("tie", "wrapper")
-                x, res = lstsq_mod.invert_regularised_lstsq(W.copy(), b.copy(), alpha=case["alpha"],
-                                                            tikhonov_matrix=None if case["L"] is None else case["L"].copy())
-                res = np.atleast_1d(np.asarray(res, dtype=float))
-                if not finite(x, res):
-                    viol.append(("c11:lstsq:nonfinite", "invert_regularised_lstsq returned a non-finite solution or residual",
-                                 meta_of(case)))
-                    continue
-                case["impl"] = {"status": "ok", "x": np.asarray(x, dtype=float).tolist(), "residuals": res.tolist()}
-                if res.size == 0:
-                    count("tags", "lstsq_no_residual_reported")
-                e = "check_lstsq_out %d %s %s %s %s %s %s" % (n, Wn, bn, qlit(case["alpha"]), Lopt,
-                                                              qlist(np.asarray(x, dtype=float).tolist()), qlist(res.tolist()))
-                entries.append((e, dict(case, tie="certificate")))
-                count("tie", "certificate")
-            else:
-                x = svd_mod.invert_svd(W.copy(), b.copy())
-                if not finite(x):
-                    viol.append(("c11:svd:nonfinite", "invert_svd returned a non-finite solution", meta_of(case)))
-                    continue
-                case["impl"] = {"status": "ok", "x": np.asarray(x, dtype=float).tolist()}
-                e = "check_svd_out %s %s %s" % (Wn, bn, qlist(np.asarray(x, dtype=float).tolist()))
-                entries.append((e, dict(case, tie="certificate")))
-                count("tie", "certificate")
+            st, out = call_lsq(case)
+        value_error = (st == "exception" and kind == "nnls" and isinstance(out, ValueError))   # the max(b) <= 0 error model
+        observed = "Accept" if (st == "ok" or value_error) else F.outcome_of_exception(out)
+        exc_text = None if st == "ok" else "%s: %s" % (type(out).__name__, out)
+        if kind == "svd":
+            fe = "check_svd_forms %s %s %s" % (F.coq_array_form(case, "W"), F.coq_array_form(case, "b"), observed)
+        else:
+            fL = "None" if case["L"] is None else "(Some %s)" % F.coq_array_form(case, "L")
+            fe = "check_lsq_forms %s %s %s %s" % (F.coq_array_form(case, "W"), fL, F.coq_alpha_form(case), observed)
+        entries.append((fe, dict(case, tie="forms", exception=exc_text if observed != "Accept" else None)))
+        count("tie", "forms")
+        count("outcome", "%s:%s" % (kind, observed))
+        if observed != "Accept":
+            continue
         n_nontrivial += 1
         distinct.add((kind, W.tobytes(), b.tobytes(), case.get("alpha"), None if case.get("L") is None else case["L"].tobytes()))
+        if value_error:
+            case["impl"] = {"status": "valueerror", "message": str(out)}
+            entries.append(("check_nnls_error %d %s" % (n, bn), dict(case, tie="certificate")))
+            count("tie", "certificate")
+            continue
+        # (a) the wrapper itself, third-party solver replaced by a recorder
+        if kind in ("nnls", "lstsq"):
+            rec = Recorder(rng, n, kind == "lstsq")
+            with warnings.catch_warnings():
+                warnings.simplefilter("ignore")
+                st_r, out_r = call_lsq(case, recorder=rec)
+            if st_r != "ok" or rec.args is None:
+                viol.append(("c11:%s:wrapper" % kind, "invert_regularised_%s behaves differently when the solver is replaced by a "
+                             "recording stub (%s)" % (kind, out_r), meta_of(case)))
+                continue
+            xr, rr = out_r
+            if not finite(rec.args[0], rec.args[1]):
+                viol.append(("c11:%s:nonfinite-system" % kind, "invert_regularised_%s handed a non-finite system to the solver "
+                             "although max(b) > 0" % kind, meta_of(case)))
+                continue
+            if kind == "nnls":
+                e = "check_nnls_wrapper %s %d %s %s %s %s %s %s %s %s %s %s" % (
+                    single, n, Wn, bn, qlit(case["alpha"]), Lopt, qmat(rec.args[0]), qlist(rec.args[1].tolist()),
+                    qlist(rec.x.tolist()), qlit(rec.r), qlist(np.asarray(xr, dtype=float).tolist()), qlit(float(rr)))
+            else:
+                e = "check_lstsq_wrapper %s %d %s %s %s %s %s %s %s %s" % (
+                    single, n, Wn, bn, qlit(case["alpha"]), Lopt, qmat(rec.args[0]), qlist(rec.args[1].tolist()),
+                    "(Qeq_bool_list %s %s)" % (qlist(rec.x.tolist()), qlist(np.asarray(xr, dtype=float).tolist())),
+                    "(Qeq_bool_list %s %s)" % (qlist([rec.r]), qlist(np.asarray(rr, dtype=float).tolist())))
+            entries.append((e, dict(case, tie="wrapper")))
+            count("tie", "wrapper")
+        # (b) the real output
+        if kind == "nnls":
+            x, rn = out
+            if not finite(x, rn):
+                viol.append(("c11:nnls:nonfinite", "invert_regularised_nnls returned a non-finite solution or norm",
+                             meta_of(case, {"impl_x": np.asarray(x).tolist(), "impl_rnorm": float(rn)})))
+                continue
+            case["impl"] = {"status": "ok", "x": np.asarray(x, dtype=float).tolist(), "rnorm": float(rn)}
+            e = "check_nnls_out %s %d %s %s %s %s %s %s" % (single, n, Wn, bn, qlit(case["alpha"]), Lopt,
+                                                         qlist(np.asarray(x, dtype=float).tolist()), qlit(float(rn)))
+        elif kind == "lstsq":
+            x, res = out
+            res = np.atleast_1d(np.asarray(res, dtype=float))
+            if not finite(x, res):
+                viol.append(("c11:lstsq:nonfinite", "invert_regularised_lstsq returned a non-finite solution or residual",
+                             meta_of(case)))
+                continue
+            case["impl"] = {"status": "ok", "x": np.asarray(x, dtype=float).tolist(), "residuals": res.tolist()}
+            if res.size == 0:
+                count("tags", "lstsq_no_residual_reported")
+            e = "check_lstsq_out %s %d %s %s %s %s %s %s" % (single, n, Wn, bn, qlit(case["alpha"]), Lopt,
+                                                          qlist(np.asarray(x, dtype=float).tolist()), qlist(res.tolist()))
+        else:
+            x = out
+            if not finite(x):
+                viol.append(("c11:svd:nonfinite", "invert_svd returned a non-finite solution", meta_of(case)))
+                continue
+            case["impl"] = {"status": "ok", "x": np.asarray(x, dtype=float).tolist()}
+            e = "check_svd_out %s %s %s %s" % (single, Wn, bn, qlist(np.asarray(x, dtype=float).tolist()))
+        entries.append((e, dict(case, tie="certificate")))
+        count("tie", "certificate")
 
     ctx.log("implementation runs done: %d entries" % len(entries))
     # ---- write case files and run them in Coq -----------------------------------------------------
     # shards balanced by estimated cost (rows x columns x sweeps), so that the parallel coqc runs end together
     def cost(case):
+        if case.get("tie") == "forms":
+            return 1
         sweeps = ((case.get("impl") or {}).get("sweeps") or 0) if case["kind"] in ("sart", "csart") else 3
         return 1 + case["m"] * case["n"] * (1 + sweeps) * (3 if case["mode"] == "float" else 1)
     n_shards = 16 if quick else max(16, len(entries) // 25)
@@ -558,7 +596,7 @@ def run(ctx):
         for e, _ in sh:
             words.update(re.findall(r"\b[WbL]\d+\b", e))
         used = [d for d in defs if any(ln.split()[1] in words for ln in d.split("\n"))]
-        txt = ("Require Import Cherab.Common.Qx Cherab.Model.C11_Sart Cherab.Model.C11_Kkt Cherab.Model.C11_Check.\n"
+        txt = ("Require Import Cherab.Common.Qx Cherab.Model.C11_Sart Cherab.Model.C11_Kkt Cherab.Model.C11_Check Cherab.Model.C11_Forms.\n"
                "Open Scope Q_scope.\nDefinition e1 : Q := %s.\n" % qlit(E1) + "\n".join(used)
                + "\nDefinition results : list Z := [\n  " + ";\n  ".join(e for e, _ in sh) + "].\n"
                "Eval vm_compute in results.\n")
@@ -589,7 +627,12 @@ def run(ctx):
         ctx.violation(key, text, rep, found=True)
     for f in sf[:6]:
         ctx.violation("c11:%s:%s" % (f["kind"], f["claim"][:48]), f["claim"], f, found=True)
-    if diff_cases and not sf and not viol:
+    rejected = [c for c in diff_cases if c.get("tie") == "forms" and c.get("exception")]
+    for case in rejected[:4]:
+        ctx.violation("c11:%s:rejects-accepted-input" % case["kind"],
+                      "%s raised %s for an input whose type / layout it is expected to accept (forms %s)"
+                      % (case["kind"], case["exception"], case.get("forms")), meta_of(case), found=True)
+    if diff_cases and not sf and not viol and not rejected:
         for case in diff_cases[:3]:
             ctx.violation("c11-diff:%s:%s" % (case["kind"], case.get("tie")),
                           "model and implementation disagree for a %s case (%s tie); the executable property found no failing input"
